@@ -43,9 +43,57 @@ fn main() {
         std::process::exit(2);
     }
     let mut report = Report::new(&id, tier, seed);
+    // second pass under the checked profile (debug assertions + overflow checks), started first so that it runs
+    // alongside; C17 drives both profiles itself, C19 compares backends through its own tool
+    let second = if !cfg!(debug_assertions) && std::env::var("VERIF_PROFILE_CHILD").is_err() && std::env::var("VERIF_SINGLE_PROFILE").is_err() && id != "C17" && id != "C19" {
+        let bin = std::env::current_exe().ok().and_then(|p| p.parent().and_then(|d| d.parent()).map(|d| d.join("checked").join("blsful-mc")));
+        match bin {
+            Some(b) if b.exists() => {
+                let out = std::env::temp_dir().join(format!("blsful-mc-profile-{}-{}.json", id, std::process::id()));
+                let log = std::fs::File::create(std::env::temp_dir().join(format!("blsful-mc-profile-{}-{}.log", id, std::process::id()))).ok();
+                let mut cmd = std::process::Command::new(&b);
+                cmd.arg(&id).arg(tier.name()).env("VERIF_PROFILE_CHILD", &out).env("VERIF_SEED", seed.to_string());
+                if let Some(l) = log {
+                    if let Ok(l2) = l.try_clone() {
+                        cmd.stdout(l).stderr(l2);
+                    }
+                }
+                match cmd.spawn() {
+                    Ok(c) => Some((c, out)),
+                    Err(e) => {
+                        report.machinery(format!("cannot start the checked-profile binary {:?}: {}", b, e));
+                        None
+                    }
+                }
+            }
+            _ => {
+                report.machinery("checked-profile binary not found next to the release one (run.sh builds it)".into());
+                None
+            }
+        }
+    } else {
+        None
+    };
     if !props::run(&id, tier, seed, &mut report) {
         eprintln!("unknown property {}", id);
         std::process::exit(2);
+    }
+    if let Some((mut child, out)) = second {
+        let st = child.wait();
+        match (st, std::fs::read_to_string(&out).ok().and_then(|t| serde_json::from_str::<engine::ProfileSummary>(&t).ok())) {
+            (Ok(s), Some(sum)) if s.success() => {
+                eprintln!(
+                    "[{}] checked profile: states={} evaluations={} violations={}",
+                    id,
+                    sum.models.iter().map(|m| m.states).sum::<u64>(),
+                    sum.models.iter().map(|m| m.evaluations).sum::<u64>(),
+                    sum.violations.len()
+                );
+                report.merge_profile(sum);
+            }
+            (s, _) => report.machinery(format!("checked-profile pass did not complete: {:?} (an abort there is a machinery exit, never a verdict)", s.map(|x| x.code()))),
+        }
+        let _ = std::fs::remove_file(&out);
     }
     std::process::exit(report.finish());
 }
